@@ -34,7 +34,7 @@ var c14Plan = []planEntry{
 	{spaces.XInfo, 4, 5},
 	{spRawAttr, 6, 7},
 	{spRawTag, 5, 6},
-	{spLinkTail, 5, 6},
+	{spLinkTail, 6, 7},
 	{spDefGram, 5, 6},
 }
 
